@@ -132,7 +132,7 @@ NOT_YET = {}
 NOT_APPLICABLE = {
     'C15': ("the property is about the YAML text form; PyYAML's emitter/scanner/regex resolver and CPython's "
             "float repr cannot carry symbolic scalars (CrossHair inconclusive on regex over symbolic str, "
-            "z3 strings unknown on the format operations); see DESIGN.md §2 C15"),
+            "z3 strings unknown on the format operations); see DESIGN.md §3"),
 }
 
 
